@@ -227,7 +227,7 @@ func (c *Connect) unpackPayload(bufr *bytes.Buffer) error {
 		}
 	}
 	if c.PasswordFlag {
-		c.Password, err = readUTF8String(true, bufr)
+		c.Password, err = readUTF8String(false, bufr)
 		if err != nil {
 			return err
 		}
